@@ -192,7 +192,10 @@ func (p *Provider) Create(ctx context.Context, nc *v1.NodeClaim) (*v1.NodeClaim,
 		},
 	}
 	inst := &Instance{ProviderID: pid, Claim: nc.Name, Type: ch.Type.Name, Zone: ch.Offering.Zone(),
-		CapacityType: ch.Offering.CapacityType(), Reservation: ch.Offering.ReservationID(), State: "running", NodeClaim: created}
+		CapacityType: ch.Offering.CapacityType(), State: "running", NodeClaim: created}
+	if inst.CapacityType == v1.CapacityTypeReserved {
+		inst.Reservation = ch.Offering.ReservationID()
+	}
 	p.Instances[pid] = inst
 	p.CreateCount[string(nc.UID)]++
 	p.emit(ctx, "Create", nc.Name, string(nc.UID), "-", pid)
@@ -273,7 +276,7 @@ func (p *Provider) IsDrifted(context.Context, *v1.NodeClaim) (cloudprovider.Drif
 	return p.Drifted, nil
 }
 func (p *Provider) RepairPolicies() []cloudprovider.RepairPolicy { return p.Repair }
-func (p *Provider) Name() string                                  { return "verif" }
+func (p *Provider) Name() string                                 { return "verif" }
 func (p *Provider) GetSupportedNodeClasses() []status.Object {
 	return []status.Object{&v1alpha1.TestNodeClass{}}
 }
@@ -311,14 +314,15 @@ type OfferingSpec struct {
 	CPUOverride        int // milli, 0 = none
 }
 type TypeSpec struct {
-	Name      string
-	CPU       int // milli
-	MemMi     int
-	Pods      int
-	Arch      string
-	Offerings []OfferingSpec
-	Extra     map[string]string // extra single-valued requirement labels
+	Name        string
+	CPU         int // milli
+	MemMi       int
+	Pods        int
+	Arch        string
+	Offerings   []OfferingSpec
+	Extra       map[string]string // extra single-valued requirement labels
 	OverheadCPU int
+	ExtraRes    map[string]int // extended resources in capacity
 }
 
 func MakeType(s TypeSpec) *cloudprovider.InstanceType {
@@ -369,6 +373,9 @@ func MakeType(s TypeSpec) *cloudprovider.InstanceType {
 			corev1.ResourcePods:   *resource.NewQuantity(int64(pods), resource.DecimalSI),
 		},
 		Overhead: &cloudprovider.InstanceTypeOverhead{},
+	}
+	for k, v := range s.ExtraRes {
+		it.Capacity[corev1.ResourceName(k)] = *resource.NewQuantity(int64(v), resource.DecimalSI)
 	}
 	if s.OverheadCPU > 0 {
 		it.Overhead.KubeReserved = corev1.ResourceList{corev1.ResourceCPU: *resource.NewMilliQuantity(int64(s.OverheadCPU), resource.DecimalSI)}
